@@ -2,7 +2,7 @@
     delivery and of the client's merge is tied to the implementation by the correspondence; proved here
     are the content function's agreement with the specification, the commutation of one object's group
     payloads, and the kept findings. *)
-From GV Require Import Base.Prelude Model.Exec Model.Defer Model.DeferProto Proofs.ExecProofs Proofs.DeferProofs Proofs.DeferProtoProofs Proofs.DeferMergeProofs.
+From GV Require Import Base.Prelude Model.Exec Model.Defer Model.DeferProto Proofs.ExecProofs Proofs.DeferProofs Proofs.DeferProtoProofs Proofs.DeferMergeProofs Proofs.DeferSplitProofs.
 From Coq Require Import Permutation.
 Open Scope string_scope.
 Open Scope list_scope.
@@ -99,3 +99,13 @@ Example C13_one_object_nonvacuous :
   group_obj mark fields "y" = [("a2", TInt 2)] /\
   fold_left (fun acc lab => obj_merge acc (TObj (group_obj mark fields lab))) ["y"; "x"] (TObj (initial_obj mark fields)) = TObj fields.
 Proof. vm_compute. repeat split; reflexivity. Qed.
+
+(** The executable delivery model (what the correspondence runs against the generated servers) agrees with that
+    picture at its starting point: for an object whose deferred fields are its own (no deferral below them) and whose
+    immediate fields do not fail, the initial payload the model computes is the object with null placeholders at
+    exactly the deferred keys. *)
+Theorem C13_initial_payload_is_initial_obj : forall m p tn fs,
+  flat m p fs -> clean m p fs ->
+  mval_json (fst (complete_impl false p (fst (split m p (NObj tn fs))))) = TObj (initial_obj (mark_at m p) (map (field_json p) fs)).
+Proof. exact initial_payload_is_initial_obj_lemma. Qed.
+Print Assumptions C13_initial_payload_is_initial_obj.
